@@ -669,4 +669,45 @@ Proof. reflexivity. Qed.
     rewrite (pbind_eq _ _ _ _ _ (liftR_ok _ r' initial_depth _ _ E3)). reflexivity.
   Qed.
 
+
+  (* ---- several printed values, separated by single spaces ---- *)
+  Fixpoint more_txt (vs : list value) : bytes :=
+    match vs with [] => [] | v :: vs' => 32 :: txt v ++ more_txt vs' end.
+  Definition seq_txt (vs : list value) : bytes :=
+    match vs with [] => [] | v :: vs' => txt v ++ more_txt vs' end.
+
+  Lemma more_txt_delim vs : delim_ok (more_txt vs).
+  Proof. destruct vs; [exact I|left; reflexivity]. Qed.
+
+  Lemma iterate_more vs : forall fuel n r D,
+    Forall (fun v => rt_ok v /\ N.of_nat (rdepth v) < D) vs -> D <= 128 ->
+    (length (more_txt vs) + K + 1 <= fuel)%nat -> (length vs < n)%nat -> at_bytes r (more_txt vs) ->
+    iterate_values ro alpha fast std_parse fuel n (mkp r D) = map (fun v => POk v) vs.
+  Proof.
+    induction vs as [|v vs IH]; intros fuel n r D Hall HD Hf Hn Ha; (destruct n as [|n]; [cbn in Hn; lia|]); cbn [iterate_values].
+    - destruct fuel as [|f]; [unfold K in Hf; lia|]. rewrite next_value_S.
+      destruct (ws_eof f r ltac:(unfold K in Hf; lia) Ha) as (r1 & E1 & _).
+      rewrite (pbind_eq _ _ _ _ _ (liftR_ok _ r D _ _ E1)). reflexivity.
+    - inversion Hall as [|? ? [Hok Hd] Hall']; subst. cbn [more_txt] in Ha, Hf. cbn [length] in Hf. rewrite app_length in Hf.
+      change (32 :: txt v ++ more_txt vs) with ([32] ++ txt v ++ more_txt vs) in Ha.
+      destruct (proj1 (next_value_reads_text v) fuel r D [32] (more_txt vs) (or_intror eq_refl) Hok Hd HD
+                  ltac:(lia) Ha (more_txt_delim vs)) as (r1 & E1 & Ha1 & _).
+      rewrite E1. cbn [map]. f_equal. apply IH; auto; try lia. cbn [length] in Hn. lia.
+  Qed.
+
+  Theorem iterate_sequence vs fuel n r D :
+    Forall (fun v => rt_ok v /\ N.of_nat (rdepth v) < D) vs -> D <= 128 ->
+    (length (seq_txt vs) + K + 1 <= fuel)%nat -> (length vs < n)%nat -> at_bytes r (seq_txt vs) ->
+    iterate_values ro alpha fast std_parse fuel n (mkp r D) = map (fun v => POk v) vs.
+  Proof.
+    intros Hall HD Hf Hn Ha. destruct vs as [|v vs].
+    - apply (iterate_more [] fuel n r D); auto.
+    - destruct n as [|n]; [cbn in Hn; lia|]. cbn [iterate_values]. cbn [seq_txt] in Ha, Hf. rewrite app_length in Hf.
+      inversion Hall as [|? ? [Hok Hd] Hall']; subst.
+      change (txt v ++ more_txt vs) with ([] ++ txt v ++ more_txt vs) in Ha.
+      destruct (proj1 (next_value_reads_text v) fuel r D [] (more_txt vs) (or_introl eq_refl) Hok Hd HD
+                  ltac:(lia) Ha (more_txt_delim vs)) as (r1 & E1 & Ha1 & _).
+      rewrite E1. cbn [map]. f_equal. apply iterate_more; auto; try lia. cbn [length] in Hn. lia.
+  Qed.
+
 End Roundtrip.
